@@ -18,7 +18,17 @@ tucker with user initialisations are tied to the ORDER-GENERIC skeleton families
 modes, list lengths computed from the call), whose safety is proved for all parameter values; (c) mutator methods
 CPTensor.normalize() / TuckerTensor.normalize() are documented in-place receivers; (d) process_regularization_weights
 (found in round 2 to assign into the caller's coefficient lists, repaired by fix 58815dd) is tied to skeleton sk_prw;
-(e) seeded random option combinations of the anchored decompositions with user initialisations ("fuzz:<seed>")."""
+(e) seeded random option combinations of the anchored decompositions with user initialisations ("fuzz:<seed>").
+
+Round 5: (a) the public surface of the anchored packages is MEASURED on every run (trace hook: which public callables does the
+table execute; evidence field public_surface) and the table was completed accordingly (einsum-backend functions, to_unfolding
+methods, Parafac2Tensor methods, TensorTrain_OI, get_params / set_params / score); (b) class-based API: fit + a second
+fit_transform on the same estimator for every decomposition class, estimators as RECEIVER arguments (skeleton
+Model.Effects.sk_estimator_fit: exactly the receiver changes), fitted estimators as protected arguments of predict / transform /
+score; (c) exception paths: every configuration once more with an exception injected at a random internal function call
+(variant "kind!k"); Corr.C15.agree compares a call that raised with the interruption points `run sk n` of the skeleton;
+(d) tucker_mode_dot(copy=False) / index_update skeletons; (e) 48 more functions in the static correspondence; (f) compact case
+literals (binary numerals, buffers by length) and the Coq build / Print Assumptions pass in a worker thread."""
 import contextlib, copy, io, random, sys, time, zlib
 import numpy as np
 from harness import common as C
@@ -813,10 +823,11 @@ def entry_points(dtype=np.float64, seed=0):
     # (fit / fit_transform / transform / predict / score / get_params / set_params of every estimator and decomposition class; the
     # estimator as a RECEIVER argument holding the user's options), call sequences, the remaining documented in-place parameters
     from tensorly.contrib.decomposition.tt_TTOI import TensorTrain_OI
-    simple("einsum_kronecker_inner_outer_mode_dot", _einsum(lambda fs, X, Mx, v: (tenalg.kronecker(fs), tenalg.kronecker(fs, skip_matrix=1, reverse=True), tenalg.inner(X, X), tenalg.inner(X, tl.transpose(X)[:, :, :2], n_modes=1),
+    simple("einsum_kronecker_inner_outer_mode_dot", _einsum(lambda fs, X, Mx, v: (tenalg.kronecker(fs), tenalg.kronecker(fs, reverse=True), tenalg.kronecker(fs, skip_matrix=1, reverse=True), tenalg.inner(X, X), tenalg.inner(X, tl.transpose(X)[:, :, :2], n_modes=1),
                                                                                   tenalg.outer([f[:, 0] for f in fs]), tenalg.batched_outer([X[:, :, 0], X[:, :, 1]]),
                                                                                   tenalg.mode_dot(X, Mx, 1), tenalg.mode_dot(X, v, 1), tenalg.mode_dot(X, Mx.T, 1, transpose=True))),
            lambda d: (d.fs, d.X, d.mat, d.vec))
+    simple("kronecker_reverse_list_and_tuple", lambda fs, ft: (tenalg.kronecker(fs, reverse=True), tenalg.kronecker(ft, reverse=True), tenalg.khatri_rao(fs, reverse=True) if False else tenalg.khatri_rao(fs)), lambda d: (d.fs, tuple(d.fs)))
     simple("einsum_tt_matrix_to_tensor", _einsum(lambda g: (tt_matrix_to_tensor(g), tt_matrix_to_matrix(g), TTMatrix(g).to_tensor())), lambda d: (ttm(d),))
     simple("to_unfolding_methods", lambda f, g, h_: (TTTensor(f).to_unfolding(1), TRTensor(g).to_unfolding(1), TTMatrix(h_).to_unfolding(1)), lambda d: (ttf(d), trf(d), ttm(d)))
     simple("parafac2_obj_methods", lambda p: (p.to_tensor(), p.to_unfolded(1), p.to_vec()), lambda d: (Parafac2Tensor(p2t(d)),))
@@ -985,6 +996,28 @@ def fuzz_spec(fseed, dtype=np.float64):
         scont = r.choice([list, tuple])
         fn = lambda sl, i: parafac2(sl, R, init=i, **opts)
         args = (scont(slices), init)
+    # round 5: one fuzz case in three goes through the estimator CLASS of the algorithm (same options, passed to the constructor;
+    # fit, then a second fit_transform on the same object).  Decided by a separate generator: the option stream above is unchanged.
+    if random.Random(fseed ^ 0x5EED).random() < 0.34:
+        import inspect
+        from tensorly.decomposition import _cp, _nn_cp, _constrained_cp, _tucker, _parafac2
+        cname = {"parafac": "CP", "randomised_parafac": "RandomizedCP", "nn_parafac": "CP_NN", "nn_parafac_hals": "CP_NN_HALS", "constrained": "ConstrainedCP",
+                 "tucker": "Tucker", "nn_tucker": "Tucker_NN", "nn_tucker_hals": "Tucker_NN_HALS", "parafac2": "Parafac2"}[algo]
+        cls = [getattr(m_, cname) for m_ in (_cp, _nn_cp, _constrained_cp, _tucker, _parafac2) if hasattr(m_, cname)][0]
+        accepted = set(inspect.signature(cls.__init__).parameters)
+        kw = {k: v for k, v in dict(opts, **(quiet if "verbose" in accepted else {})).items() if k in accepted}
+        names_by_algo = {"parafac": ("init", "fixed_modes", "mask"), "randomised_parafac": ("init",), "nn_parafac": ("init", "fixed_modes", "mask"),
+                         "nn_parafac_hals": ("init", "sparsity_coefficients", "fixed_modes"), "constrained": ("init", "fixed_modes"),
+                         "tucker": ("init", "mask", "fixed_factors"), "nn_tucker": ("init",), "nn_tucker_hals": ("init", "sparsity_coefficients", "fixed_modes"),
+                         "parafac2": ("init",)}[algo]
+        rank_arg = (R,) if algo in ("parafac", "nn_parafac", "nn_parafac_hals", "constrained", "parafac2") else ((R, opts.get("n_samples", 4)) if algo == "randomised_parafac" else (rk,))
+        kw.pop("n_samples", None)
+
+        def fn_class(data, *rest):
+            est = cls(*rank_arg, **dict(kw, **{n_: v for n_, v in zip(names_by_algo, rest) if n_ in accepted}))
+            est.fit(data)
+            return est.fit_transform(data), est.decomposition_
+        return dict(fn=fn_class, args=args, inplace=set(inplace), skel=skel, ep=f"tensorly:fuzz:{algo}", algo=algo + ":class")
     return dict(fn=fn, args=args, inplace=set(inplace), skel=skel, ep=f"tensorly:fuzz:{algo}", algo=algo)
 
 
@@ -1976,6 +2009,29 @@ ENTRIES = [
     ("parafac2_to_slices", {}, [dict(validate=U)]), ("parafac2_to_slice", {}, [dict(validate=U)]), ("parafac2_normalise", {}, [dict()]), ("khatri_rao", {}, [dict(weights=U, mask=U, skip_matrix=U)]),
     ("CP_PLSR.fit", {}, [dict()]), ("CP_PLSR.predict", {}, [dict()]), ("CP_PLSR.transform", {}, [dict(Y=U)]), ("svd_interface", {}, [dict(mask=NN, n_eigenvecs=NN, non_negative=U, flip_sign=U)]),
 ]
+# round 5: the rest of the anchored packages (proximal operators, regressors, preprocessing, the other decompositions, conversions,
+# tensor algebra, metrics).  Most of them contain no statement at all that assigns into / calls an in-place method on a name that
+# may alias a parameter: their skeleton slices down to Skip and the verdict is "accepted"; an in-place update introduced in
+# the source (x *= .., x[...] = .., list.append on a parameter, a dropped tl.copy before index_update) flips it.
+ENTRIES += [
+    ("soft_thresholding", {}, [dict()]), ("hard_thresholding", {}, [dict()]), ("svd_thresholding", {}, [dict()]), ("procrustes", {}, [dict()]),
+    ("simplex_prox", {}, [dict()]), ("monotonicity_prox", {}, [dict(decreasing=U)]), ("unimodality_prox", {}, [dict()]), ("l2_prox", {}, [dict()]),
+    ("l2_square_prox", {}, [dict()]), ("smoothness_prox", {}, [dict()]), ("soft_sparsity_prox", {}, [dict()]), ("normalized_sparsity_prox", {}, [dict()]),
+    ("proximal_operator", {}, [dict(non_negative=U, l1_reg=U, l2_reg=U, l2_square_reg=U, unimodality=U, normalize=U, simplex=U, normalized_sparsity=U,
+                                    soft_sparsity=U, smoothness=U, monotonicity=U, hard_sparsity=U)]),
+    ("CPRegressor.fit", {}, [dict()]), ("CPRegressor.predict", {}, [dict()]), ("TuckerRegressor.fit", {}, [dict()]), ("TuckerRegressor.predict", {}, [dict()]),
+    ("CP_PLSR.fit_transform", {}, [dict()]), ("CP_PLSR.score", {}, [dict()]),
+    ("svd_compress_tensor_slices", {}, [dict(compression_threshold=U, max_rank=U)]), ("svd_decompress_parafac2_tensor", {}, [dict()]),
+    ("tensor_train", {}, [dict()]), ("tensor_train_matrix", {}, [dict()]), ("tensor_ring", {}, [dict()]), ("tensor_ring_als", {}, [dict()]),
+    ("tensor_train_cross", {}, [dict()]), ("tensor_train_OI", {}, [dict(trajectory=U)]), ("coupled_matrix_tensor_3d_factorization", {}, [dict()]),
+    ("parafac_power_iteration", {}, [dict()]), ("symmetric_parafac_power_iteration", {}, [dict()]), ("power_iteration", {}, [dict()]),
+    ("cp_to_tensor", {}, [dict(mask=U)]), ("cp_lstsq_grad", {}, [dict(mask=U, return_loss=U)]), ("tucker_to_tensor", {}, [dict(skip_factor=U)]),
+    ("parafac2_to_tensor", {}, [dict()]), ("apply_parafac2_projections", {}, [dict()]), ("pad_tt_rank", {}, [dict(pad_boundaries=U)]),
+    ("unfolding_dot_khatri_rao", {}, [dict()]), ("multi_mode_dot", {}, [dict(modes=U, skip=U, transpose=U)]), ("mode_dot", {}, [dict(transpose=U)]),
+    ("kronecker", {}, [dict(skip_matrix=U, reverse=U)]), ("sample_khatri_rao", {}, [dict(indices_list=U, skip_matrix=U, return_sampled_rows=U)]),
+    ("congruence_coefficient", {}, [dict()]), ("correlation_index", {}, [dict()]), ("make_svd_non_negative", {}, [dict(nntype=U)]),
+    ("Tucker.fit_transform", {}, [dict()]), ("Parafac2.fit_transform", {}, [dict()]), ("DecompositionMixin.fit", {}, [dict()]),
+]
 # negative controls: the analysis must REJECT these (documented in-place parameter not flagged)
 NEGATIVE = [("hals_nnls", {}, dict(V=NN)), ("cp_mode_dot", {}, dict(copy=False)), ("tucker_mode_dot", {}, dict(copy=False))]
 INLINE = {"initialize_cp", "error_calc", "sparsify_tensor", "cp_normalize", "initialize_tucker", "partial_tucker", "hals_nnls", "fista", "active_set_nnls",
@@ -1999,8 +2055,11 @@ HAND_WRITTEN = {    # (function, in-place parameters, option-set index) -> (hand
     ("cp_permute_factors", (), 0): ("KPermute", [F_, F_]),
     ("parafac2_to_slices", (), 0): ("KP2Slices", [F_]),
     ("CP_PLSR.fit", (), 0): ("KPlsrFit", [F_, F_]),
+    ("tucker_mode_dot", (), 0): ("KTuckerModeDotCopy", [F_, F_]),
+    ("tucker_mode_dot", ("tucker_tensor",), 0): ("KTuckerModeDotVecInplace", [T_, F_]),
 }
-HAND_WRITTEN_NEG = {"hals_nnls": ("KHalsNnls", [F_] * 3), "cp_mode_dot": ("KModeDotVecInplace", [F_, F_])}
+HAND_WRITTEN_NEG = {"hals_nnls": ("KHalsNnls", [F_] * 3), "cp_mode_dot": ("KModeDotVecInplace", [F_, F_]),
+                    "tucker_mode_dot": ("KTuckerModeDotMatInplace", [F_, F_])}
 HEADER_STATIC = HEADER + "\nDefinition failing := failing_static.\n"
 
 
@@ -2251,10 +2310,10 @@ def plan(tier, rng):
 
 
 def plan_interrupts(tier, rng):
-    """exception paths: every table configuration once more (quick) / four times more (thorough), made to raise at a random
-    one of its internal function calls (counted during the uninterrupted "fresh" run of the first pass)"""
+    """exception paths: every table configuration once more (quick) / twice more (thorough: once per dtype), made to raise at a
+    random one of its internal function calls (counted during the uninterrupted "fresh" run of the first pass)"""
     out = []
-    per = 1 if tier == "quick" else 2
+    per = 1
     for (name, dtype, seed), total in sorted(CALL_COUNTS.items()):
         if total <= 0 or name.startswith("fuzz:"):
             continue
@@ -2397,7 +2456,12 @@ def run(chk):
     try:
         t_st = time.time()
         sdefs, scases, snames, sskipped, sex = static_cases(C.REPO, 6000 if chk.tier == "quick" else STATIC_CAP)
-        sfail, sn, sbroken = C.run_case_shards("C15", HEADER_STATIC + sdefs, "scase", scases, shard=4, timeout=600, tag="static")
+        # skeletons with few paths share one shard; the heavy ones (up to thousands of paths each) run four per shard
+        light = [i for i, n_ in enumerate(snames) if n_["paths"] <= 50]
+        heavy = [i for i, n_ in enumerate(snames) if n_["paths"] > 50]
+        sfail, sn, sbroken = C.run_case_shards("C15", HEADER_STATIC + sdefs, "scase", [scases[i] for i in heavy], shard=4, timeout=600, tag="static")
+        sfail2, sn2, sbroken2 = C.run_case_shards("C15", HEADER_STATIC + sdefs, "scase", [scases[i] for i in light], shard=60, timeout=600, tag="static_light")
+        sfail, sn, sbroken = set(sfail) | set(sfail2), sn + sn2, list(sbroken) + list(sbroken2)
         chk.cov["static_skeletons_extracted_and_analysed"] = sn
         chk.cov["static_skipped"] = [f"{a} option set {b}: {c}" for a, b, c in sskipped]
         chk.cov["static_unresolved_constructs"] = dict(__import__("collections").Counter(sex.unresolved))
@@ -2421,10 +2485,14 @@ def run(chk):
     chk.assumptions = ["the snapshot sees every caller-owned object: arrays (whole base buffer), lists, tuples, dicts, tensorly wrapper objects; "
                        "other Python objects (callables, RandomState instances) are outside the statement",
                        "a replaced container entry with a bit-identical value is not a change (the property compares with a deep copy)",
-                       "skeletons are hand-written abstractions (one path per option set; parafac / HALS / tucker generic in the order, the number of "
-                       "sweeps and the list lengths); they are tied to the code only through footprints"]
+                       "hand-written skeletons are abstractions (one path per option set; parafac / HALS / tucker / estimator fit generic in the order, "
+                       "the number of sweeps and the list lengths) tied to the code through footprints and through the verdict comparison with the "
+                       "skeletons regenerated from the source (corr:C15-static)",
+                       "the receiver of an estimator's fit / fit_transform and of CPTensor / TuckerTensor.normalize() counts as documented in-place",
+                       "an injected interruption is an exception raised at the entry of an internal Python-level function of tensorly"]
     chk.trusted = ["NumPy base-buffer identity (ndarray.base chain) as the notion of buffer identity",
-                   "aliasing skeletons of Model/Effects.v are modelled, not extracted from the source"]
+                   "the ast translator behind corr:C15-static (unknown callees pure and fresh-returning, callee summaries, peepholes, backward slice)",
+                   "list lengths / orders handed to the order-generic skeletons are computed by the harness from the call"]
     return chk.finish(CLASSIFIERS)
 
 
